@@ -4,6 +4,7 @@
 #include <ctpg/ctpg.hpp>
 #include <cstdio>
 #include <vector>
+#include <string>
 #include <tuple>
 using namespace ctpg;
 using namespace ctpg::ftors;
@@ -58,6 +59,20 @@ int main()
         long code = -1;
         if (r.has_value()) { code = 0; for (int x : r.value()) code = code * 10 + x; }
         report("push_back<1,3>/create", 123, code);
+    }
+    {   // the readme's list: list(number) >= construct<list_type, 1>{} "constructs list_type{value}" - a list of that ONE element
+        parser p(lst, terms(digit_r, ','), nterms(lst, d),
+                 rules(d(digit_r) >= [](std::string_view sv) { return int(sv[0] - '0'); },
+                       lst(d) >= construct<std::vector<int>, 1>{},
+                       lst(lst, ',', d) >= push_back<1, 3>{}));
+        for (const char* in : { "3,4", "0", "2", "9,0,3" })
+        {
+            auto r = p.parse(string_buffer(in));
+            long code = -1, want = 0;
+            if (r.has_value()) { code = 1; for (int x : r.value()) code = code * 10 + x; }
+            want = 1; for (const char* c = in; *c; ++c) if (*c != ',') want = want * 10 + (*c - '0');
+            report((std::string("construct<vector,1>/push_back<1,3> on ") + in).c_str(), want, code);
+        }
     }
     {   // emplace_back<3,1>: the element comes first; the innermost list is completed first, so elements arrive right to left
         parser p(lst, terms(digit_r, ','), nterms(lst, d),
